@@ -15,7 +15,13 @@ Three independent pieces:
   sqlite3 dump before / after each CLI process) of one case: [prefix kills] kill re-run.
 
 Nothing in here asks atlas anything."""
+import base64
+import hashlib
+import os
 import re
+import shutil
+import sqlite3
+import threading
 
 import vlib
 
@@ -26,13 +32,35 @@ JOURNAL_DDL = "CREATE TABLE IF NOT EXISTS j(id text)"
 # ------------------------------------------------------------------------------------------------
 # workload model
 # ------------------------------------------------------------------------------------------------
-def make_shape(name, sizes, kinds=None, directives=None, rnd=None, p_ddl=0.25, checkpoints=()):
+BIG_DDL = "CREATE TABLE IF NOT EXISTS big(id int, val text)"  # no key: a second fill shows up as 2N rows
+
+
+def _salt(prev_texts, sid, first):
+    """Journal value `<sid>~<n>` such that the RUNNING statement hash atlas records for the statement in
+    `partial_hashes` (sha256 over the texts, `;` included, of the file's statements up to this one, base64, stored
+    as "h1:<hash>") starts with the string `first`. Computed here, verified against the observed revision rows."""
+    h0 = hashlib.sha256()
+    for t in prev_texts:
+        h0.update((t + ";").encode())
+    for n in range(2000000):
+        val = "%s~%d" % (sid, n)
+        h = h0.copy()
+        h.update(("INSERT INTO j(id) VALUES('%s');" % val).encode())
+        if base64.b64encode(h.digest()).decode().startswith(first):
+            return val
+    raise RuntimeError("no salt found for %r" % first)
+
+
+def make_shape(name, sizes, kinds=None, directives=None, rnd=None, p_ddl=0.25, checkpoints=(), salts=None, big=0):
     """sizes: statements per file. kinds: optional list of strings like "DII" (D = ddl, I = journal
     insert) per file; otherwise drawn from rnd (or all inserts). The very first statement of the first
     file always creates the journal table. directives: optional {file index (0-based): "none"|"file"}.
     checkpoints: indexes of files carrying `-- atlas:checkpoint`. On a fresh database a run starts at the LAST
     checkpoint: every file before it (older files, older checkpoints) is `skipped` - never executed, never
-    recorded - and the journal table is created by the first statement of the first file that does run."""
+    recorded - and the journal table is created by the first statement of the first file that does run.
+    salts: {(file index, statement index): "h"} - the insert gets a value whose recorded partial hash starts so.
+    big: row count N of the kinds B (create table big), F (one INSERT..SELECT of N rows, far more pages than
+    SQLite's 2 MB page cache) and U (one UPDATE of all rows of big)."""
     files = []
     first = max(checkpoints) if checkpoints else 0
     for fi, n in enumerate(sizes):
@@ -48,7 +76,14 @@ def make_shape(name, sizes, kinds=None, directives=None, rnd=None, p_ddl=0.25, c
                 k = "D" if rnd.random() < p_ddl else "I"
             else:
                 k = "I"
-            if k == "X":
+            if k == "B":
+                stmts.append({"id": sid, "kind": "ddl", "table": "big", "sql": BIG_DDL})
+            elif k == "F":
+                stmts.append({"id": sid, "kind": "big-fill", "sql": "INSERT INTO big(id, val) SELECT x, 'old-value-000000000000' FROM "
+                              "(WITH RECURSIVE c(x) AS (SELECT 1 UNION ALL SELECT x+1 FROM c WHERE x < %d) SELECT x FROM c)" % big})
+            elif k == "U":
+                stmts.append({"id": sid, "kind": "big-update", "sql": "UPDATE big SET val = 'new-value-111111111111'"})
+            elif k == "X":
                 # non-idempotent DDL: a second execution fails the re-run. Only used in file/all mode, where
                 # no statement may ever run twice (in none-mode a re-executed in-flight statement is allowed).
                 stmts.append({"id": sid, "kind": "ddl", "table": "x_" + sid, "strict": True,
@@ -56,6 +91,10 @@ def make_shape(name, sizes, kinds=None, directives=None, rnd=None, p_ddl=0.25, c
             elif k == "D":
                 stmts.append({"id": sid, "kind": "ddl", "table": "t_" + sid,
                               "sql": "CREATE TABLE IF NOT EXISTS t_%s(a int, b text DEFAULT 'x')" % sid})
+            elif salts and (fi, si) in salts:
+                val = _salt([x["sql"] for x in stmts], sid, salts[(fi, si)])
+                stmts.append({"id": sid, "kind": "dml", "val": val, "hash_starts": salts[(fi, si)],
+                              "sql": "INSERT INTO j(id) VALUES('%s')" % val})
             else:
                 stmts.append({"id": sid, "kind": "dml", "sql": "INSERT INTO j(id) VALUES('%s')" % sid})
         files.append({"name": "%d_f%d.sql" % (fi + 1, fi + 1), "version": str(fi + 1),
@@ -64,7 +103,15 @@ def make_shape(name, sizes, kinds=None, directives=None, rnd=None, p_ddl=0.25, c
             files[-1]["checkpoint"] = True
         if fi < first:
             files[-1]["skipped"] = True
-    return {"name": name, "files": files}
+    out = {"name": name, "files": files}
+    if big:
+        out["big"] = big
+    return out
+
+
+def idempotent(s):
+    """Statements whose second execution is invisible (and harmless): presence is all that can be observed."""
+    return s["kind"] in ("ddl", "big-update")
 
 
 def relaxed(shape, name):
@@ -94,9 +141,17 @@ def shape_files(shape):
     return out
 
 
+def _letter(s):
+    if s["kind"] == "ddl":
+        return "X" if s.get("strict") else ("B" if s["table"] == "big" else "D")
+    if s["kind"] == "dml":
+        return "I" + ("<%s>" % s["hash_starts"] if s.get("hash_starts") else "")
+    return "F" if s["kind"] == "big-fill" else "U"
+
+
 def shape_sig(shape):
     return "%s[%s]" % (shape["name"], ",".join(
-        ("^" if f.get("checkpoint") else "") + ("".join(("X" if s.get("strict") else "D") if s["kind"] == "ddl" else "I" for s in f["stmts"]) or "-") + (":" + f["directive"] if f.get("directive") else "")
+        ("^" if f.get("checkpoint") else "") + ("".join(_letter(s) for s in f["stmts"]) or "-") + (":" + f["directive"] if f.get("directive") else "")
         for f in shape["files"]))
 
 
@@ -121,7 +176,8 @@ def dirs_sig(shape, glob):
 # ------------------------------------------------------------------------------------------------
 def observe(shape, dump):
     """{"counts": {stmt id: times its effect is present}, "revs": {version: {applied,total,error}},
-    "alien": [...] rows / revisions nobody asked for}"""
+    "alien": [...] rows / revisions nobody asked for, "torn": [...] single statements that are partly applied,
+    "corrupt": reason when the independent reader cannot read the database at all}"""
     counts, revs, alien = {}, {}, []
     ids = {}
     for f in shape["files"]:
@@ -129,7 +185,11 @@ def observe(shape, dump):
             ids[s["id"]] = s
             counts[s["id"]] = 0
     if dump is None:
-        return {"counts": counts, "revs": revs, "alien": alien, "db": "absent"}
+        return {"counts": counts, "revs": revs, "alien": alien, "torn": [], "corrupt": None, "hashes": {}, "db": "absent"}
+    if dump.get("corrupt"):
+        return {"counts": counts, "revs": revs, "alien": alien, "torn": [], "corrupt": dump["corrupt"], "hashes": {}, "db": "unreadable"}
+    torn, hashes = [], {}
+    big = dump.get("big") or {"rows": 0, "new": 0}
     tables = {m[1] for m in dump["master"] if m[0] == "table"}
     jrows = {}
     for r in dump["tables"].get("j", []):
@@ -137,24 +197,88 @@ def observe(shape, dump):
     for sid, s in ids.items():
         if s["kind"] == "ddl":
             counts[sid] = 1 if s["table"] in tables else 0
+        elif s["kind"] == "big-fill":
+            n = shape["big"]
+            counts[sid] = big["rows"] // n
+            if big["rows"] % n:
+                torn.append("%s: table big holds %d rows, not a multiple of the %d the statement inserts" % (sid, big["rows"], n))
+        elif s["kind"] == "big-update":
+            counts[sid] = 1 if big["rows"] and big["new"] == big["rows"] else 0
+            if 0 < big["new"] < big["rows"]:
+                torn.append("%s: UPDATE applied to %d of %d rows" % (sid, big["new"], big["rows"]))
         else:
-            counts[sid] = jrows.pop("'%s'" % sid, 0)
+            counts[sid] = jrows.pop("'%s'" % s.get("val", sid), 0)
     for k, n in sorted(jrows.items()):
         alien.append("journal row %s x%d" % (k, n))
     versions = {f["version"] for f in shape["files"]}
     for r in dump["revisions"]:
         if r["version"] in versions and r["version"] not in revs:
             revs[r["version"]] = {"applied": r["applied"], "total": r["total"], "error": r["error"] or ""}
+            ph = r.get("partial_hashes") or ""
+            if isinstance(ph, bytes):
+                ph = ph.decode("utf-8", "replace")
+            hashes[r["version"]] = re.findall(r"h1:([A-Za-z0-9+/=]+)", str(ph))
         else:
             alien.append("revision row %r" % (r["version"],))
-    return {"counts": counts, "revs": revs, "alien": alien, "db": "present"}
+    if dump.get("integrity") not in (None, "ok"):
+        torn.append("PRAGMA integrity_check: %s" % dump["integrity"])
+    return {"counts": counts, "revs": revs, "alien": alien, "torn": torn, "corrupt": None, "hashes": hashes, "db": "present"}
+
+
+def dump(path, shape):
+    """The independent reader. Ordinary shapes: vlib.dump_db (full logical dump). Shapes with the big table: the
+    same procedure (copy of the file with its journal / WAL, python sqlite3, hot journal rolled back in the copy)
+    but the big table is aggregated by SQL instead of being listed, and `PRAGMA integrity_check` is run. A database
+    the reader cannot open or read is reported as {"corrupt": reason}."""
+    if not shape.get("big"):
+        try:
+            return vlib.dump_db(path)
+        except sqlite3.DatabaseError as ex:
+            return {"corrupt": str(ex)}
+    if not os.path.exists(path):
+        return None
+    tmp = path + ".dumpcopy.%d.%d" % (os.getpid(), threading.get_ident())
+    os.makedirs(tmp, exist_ok=True)
+    base = os.path.basename(path)
+    try:
+        for suf in ("", "-journal", "-wal", "-shm"):
+            if os.path.exists(path + suf):
+                shutil.copy(path + suf, os.path.join(tmp, base + suf))
+        con = sqlite3.connect(os.path.join(tmp, base))
+        try:
+            cur = con.cursor()
+            master = [list(r) for r in cur.execute("SELECT type, name, tbl_name, sql FROM sqlite_master ORDER BY 1, 2")]
+            names = {m[1] for m in master if m[0] == "table"}
+            out = {"master": master, "tables": {}, "revisions": [], "big": {"rows": 0, "new": 0}}
+            if "j" in names:
+                out["tables"]["j"] = sorted([list(r) for r in cur.execute("SELECT quote(id) FROM j")])
+            if "big" in names:
+                r = cur.execute("SELECT count(*), coalesce(sum(val LIKE 'new%'), 0) FROM big").fetchone()
+                out["big"] = {"rows": r[0], "new": r[1]}
+            if "atlas_schema_revisions" in names:
+                cols = ("version", "description", "type", "applied", "total", "error", "error_stmt", "hash", "partial_hashes")
+                cur.execute("SELECT %s FROM atlas_schema_revisions ORDER BY version" % ", ".join(cols))
+                out["revisions"] = [dict(zip(cols, r)) for r in cur.fetchall()]
+            out["integrity"] = "; ".join(str(r[0]) for r in cur.execute("PRAGMA integrity_check"))[:300]
+            return out
+        except sqlite3.DatabaseError as ex:
+            return {"corrupt": str(ex)}
+        finally:
+            con.close()
+    finally:
+        shutil.rmtree(tmp, ignore_errors=True)
 
 
 def brief(shape, obs):
     """Compact, human readable state for evidence samples and violation details."""
-    return {"journal": " ".join("%s=%d" % (s["id"], obs["counts"][s["id"]]) for f in shape["files"] for s in f["stmts"]),
-            "revisions": " ".join("v%s:%d/%d%s" % (v, r["applied"], r["total"], "!" if r["error"] else "")
-                                  for v, r in sorted(obs["revs"].items())) or "(none)"}
+    out = {"journal": " ".join("%s=%d" % (s["id"], obs["counts"][s["id"]]) for f in shape["files"] for s in f["stmts"]),
+           "revisions": " ".join("v%s:%d/%d%s" % (v, r["applied"], r["total"], "!" if r["error"] else "")
+                                 for v, r in sorted(obs["revs"].items())) or "(none)"}
+    if obs.get("torn"):
+        out["torn"] = obs["torn"]
+    if obs.get("corrupt"):
+        out["unreadable"] = obs["corrupt"]
+    return out
 
 
 def applied_of(obs, f):
@@ -318,11 +442,14 @@ def _final_check(vd, shape, glob, obs, where):
                          state=brief(shape, obs))
     if obs["alien"]:
         vd.v("alien-state|global=%s" % glob, "%s: unexpected rows: %s" % (where, obs["alien"][:4]), state=brief(shape, obs))
+    if obs["torn"]:
+        vd.v("torn-statement|global=%s|when=after-rerun" % glob, "%s: a single statement is partly applied / the file is damaged: %s" % (where, obs["torn"][:3]),
+             state=brief(shape, obs))
 
 
 def _skipped_check(vd, shape, glob, obs, f, where):
     """A file older than the last checkpoint is neither executed nor recorded (fresh database)."""
-    ran = [s["id"] for s in f["stmts"] if obs["counts"][s["id"]] and not (s["kind"] == "ddl" and s["table"] == "j")]
+    ran = [s["id"] for s in f["stmts"] if obs["counts"][s["id"]] and not (s["kind"] == "ddl" and s["table"] in ("j", "big"))]
     if ran or f["version"] in obs["revs"]:
         vd.v("file-before-checkpoint-executed|global=%s" % glob,
              "%s: %s precedes the last checkpoint but has effects %s / revision %s" % (where, f["name"], ran, obs["revs"].get(f["version"])),
@@ -366,7 +493,7 @@ def _crash_check(vd, shape, glob, prev, cur, kill):
                 c, c0 = cur["counts"][s["id"]], prev["counts"][s["id"]]
                 if i < a0:
                     done = done and c == c0
-                elif s["kind"] == "ddl":
+                elif idempotent(s):
                     done = done and c == 1
                 else:
                     done = done and c == c0 + 1
@@ -378,7 +505,7 @@ def _crash_check(vd, shape, glob, prev, cur, kill):
             groups.setdefault("file%d" % fi, []).append((f, unchanged, done))
         else:
             for s in f["stmts"]:
-                if s["kind"] == "dml" and cur["counts"][s["id"]] > 1 + vd.allowed.get(s["id"], 0):
+                if not idempotent(s) and cur["counts"][s["id"]] > 1 + vd.allowed.get(s["id"], 0):
                     vd.v("extra-execution|global=%s|eff=%s|within-one-run" % (glob, em),
                          "%s: statement %s is present %d times although no re-run has happened yet" % (tag, s["id"], cur["counts"][s["id"]]),
                          state=brief(shape, cur))
@@ -393,6 +520,9 @@ def _crash_check(vd, shape, glob, prev, cur, kill):
              state=brief(shape, cur), before=brief(shape, prev))
     if cur["alien"]:
         vd.v("alien-state|global=%s" % glob, "%s: unexpected rows: %s" % (tag, cur["alien"][:4]), state=brief(shape, cur))
+    if cur["torn"]:
+        vd.v("torn-statement|global=%s|when=after-kill" % glob, "%s: a single statement is partly applied / the file is damaged: %s" % (tag, cur["torn"][:3]),
+             state=brief(shape, cur), before=brief(shape, prev))
 
 
 def kill_name(kill):
@@ -415,6 +545,12 @@ def judge(case, steps):
         exp = expected_trace(shape, glob, prev)
         pend = pending_stmts(shape, prev)
         kill = step.get("kill")
+        if cur["corrupt"] and step["rc"] != 124:
+            vd.v("database-unreadable|global=%s|after=%s" % (glob, "kill" if step["kind"] in ("kill", "prefix") else step["kind"]),
+                 "an independent SQLite client cannot read the database after the %s step (%s, exit %s): %s"
+                 % (step["kind"], kill_name(kill), step["rc"], cur["corrupt"]), before=brief(shape, prev))
+            vd.killed += 1 if step["rc"] == -9 else 0
+            return vd
         if step["kind"] in ("reference", "rerun"):
             if step["rc"] == 124:
                 vd.inconclusive.append("watchdog")
